@@ -59,6 +59,21 @@ def immutability(rep: Report, prog: Program, resolver: Resolver) -> None:
                               f"`{ast.unparse(st)[:70]}` in {q} assigns the value field {cname}.{t.attr} of an existing object: {cname} "
                               "instances are shared (interned, memoised, module constants), so later arithmetic and comparisons on the "
                               "same operands change their result", fi.where(st))
+    # the pure value classes keep no other state either: a cached hash or a memo slot is derived state that is pickled,
+    # copied and compared along with the value, and goes stale or process-specific (hash of a unit is its address)
+    for q, fi in prog.functions.items():
+        if fi.cls not in ("Quantity", "Level", "Measurement") or fi.module != "" or fi.name in CONSTRUCTORS:
+            continue
+        me = fi.params()[0] if fi.params() else None
+        for st in ast.walk(fi.node):
+            tgts = st.targets if isinstance(st, ast.Assign) else ([st.target] if isinstance(st, (ast.AugAssign, ast.AnnAssign)) else [])
+            for t in tgts:
+                for x in (t.elts if isinstance(t, (ast.Tuple, ast.List)) else [t]):
+                    if isinstance(x, ast.Attribute) and isinstance(x.value, ast.Name) and x.value.id == me and not fi.is_static and not fi.is_classmethod:
+                        seen += 1
+                        rep.fail("R06.6", f"{q}:{ast.unparse(x)}", f"`{ast.unparse(st)[:60]}` stores derived state on a {fi.cls} outside its constructor: it travels with "
+                                 "pickle/copy and is compared by nobody - a cached hash is the hash of the unit's address in the process that computed it",
+                                 fi.where(st))
     if seen < 10:
         raise AnalysisError(f"only {seen} value-field assignments found (the constructors alone have more): R06.6 anchors moved")
 
@@ -80,6 +95,9 @@ def run(rep: Report) -> None:
     check_operators(rep, prog, resolver, "R06.4", None, None, only=["mul", "div", "rdiv", "pow", "root", "neg", "pos", "abs"])
     check_comparisons(rep, prog, resolver, "R06.2")
     immutability(rep, prog, resolver)
+    from .c05 import check_match_direction
+    rep.rule("R05.9", "planner steps obtained with the sides exchanged are turned round before use (shared with C05; the rest of the planner is C04's)", floor=2)
+    check_match_direction(rep, prog)
     value_preservation(rep, prog, resolver)
     prefix_arithmetic_layering(rep, prog, resolver)
     rep.assume("q.in_unit(U) returns a quantity of unit U with unchanged physical value (C04 axiom)")
